@@ -492,11 +492,94 @@ def has_ref(data):
     return re.search(rb"[0-9][\x00\t\n\x0c\r ]+[+-]?[0-9]+[\x00\t\n\x0c\r ]+R", data) is not None or b"R" in data and b"%" in data
 
 
+def spell_image(rng, keys, raw, pre=b"", post=b""):
+    out = bytearray(pre + b"BI ")
+    for k, v in keys:
+        out += T.spell_prim(Nm(k.encode() if isinstance(k, str) else k)) + b" " + T.spell_prim(v) + b" "
+    out += b"ID" + rng.choice([b" ", b"\n"]) + raw + b"\nEI" + rng.choice([b"\n", b" "]) + post
+    return bytes(out)
+
+
+def filtered_inline_cases(rng, n):
+    """inline images with /Filter (abbreviated or not, single or array): the data comes back decoded"""
+    from oracle import codecs as C
+    enc = {"AHx": lambda d: C.hex_encode(d), "A85": lambda d: C.a85_encode(d), "RL": lambda d: C.rle_encode(d), "Fl": lambda d: C.zlib_encode(d)}
+    for _ in range(n):
+        data = bytes(rng.randrange(256) for _ in range(rng.choice([1, 3, 8, 40])))
+        chain = [rng.choice(list(enc))] if rng.random() < 0.7 else [rng.choice(["AHx", "A85"]), rng.choice(list(enc))]
+        raw = data
+        for f in reversed(chain):
+            raw = bytes(enc[f](raw))
+        if b"\nEI" in raw or raw[-1:] in (b"\n",):
+            continue
+        names = [Nm((f if rng.random() < 0.6 else T.INLINE_FILTERS[f]).encode()) for f in chain]
+        fval = names[0] if len(names) == 1 and rng.random() < 0.6 else names
+        keys = [("W", rng.randint(1, 64)), ("H", rng.randint(1, 64)), (rng.choice(["F", "Filter"]), fval)]
+        if rng.random() < 0.5:
+            keys.append(("BPC", 8))
+        if rng.random() < 0.4:
+            keys.append(("CS", rng.choice([Nm(b"G"), Nm(b"RGB"), [Nm(b"I"), Nm(b"RGB"), 1, b"\x00\x00\x00\xff\xff\xff"],
+                                           [Nm(b"Indexed"), Nm(b"DeviceGray"), 0, b"\x07"]])))
+        if rng.random() < 0.2:
+            keys.append(("Intent", Nm(rng.choice(T.INTENTS).encode())))
+        rng.shuffle(keys)
+        stream = spell_image(rng, keys, raw, b"q\n", b"Q\n")
+        exp_dict = T.expand_image_dict([(k.encode(), v) for k, v in keys])
+        exp = [("Save",), ("InlineImage", (Dict(exp_dict), data)), ("Restore",)]
+        yield remember(Case("ops_parse_bytes", [stream], check=same_ops_check(exp), tags=["inline", "inline-filtered", "bytes"]), toks=[], expected=exp)
+
+
+BAD_VALUES = [None, True, Nm(b"X"), b"s", 1.5, -1, 300, [1, 2], [], Dict([])]
+
+
+def malformed_inline_cases(rng, n):
+    """inline images whose dictionary is not what ImageDict needs, or that are cut short: never a panic, and the model
+    decides the same way whether an image comes out"""
+    for _ in range(n):
+        keys = [("W", rng.randint(1, 9)), ("H", rng.randint(1, 9)), ("BPC", 8), ("CS", Nm(b"G"))]
+        k = rng.randrange(12)
+        bad = rng.choice(BAD_VALUES)
+        bad = F.of(bad) if isinstance(bad, float) else bad
+        if k == 0:
+            keys = [x for x in keys if x[0] != rng.choice(["W", "H"])]
+        elif k == 1:
+            keys[rng.randrange(2)] = (keys[rng.randrange(2)][0], bad)
+        elif k == 2:
+            keys.append((rng.choice(["F", "Filter"]), rng.choice([Nm(b"Nope"), [Nm(b"AHx"), Nm(b"Nope")], 3, [1], b"AHx", [[Nm(b"AHx")]]])))
+        elif k == 3:
+            keys[3] = ("CS", rng.choice([bad, [Nm(b"I")], [Nm(b"I"), Nm(b"G")], [Nm(b"I"), Nm(b"G"), 256, b"x"], [Nm(b"I"), Nm(b"G"), 1, 7],
+                                         [1, 2], [Nm(b"I"), [Nm(b"I"), [Nm(b"I"), [Nm(b"I"), [Nm(b"I"), [Nm(b"I"), Nm(b"G"), 0, b"a"], 0, b"a"], 0, b"a"], 0, b"a"], 0, b"a"], 0, b"a"]]))
+        elif k == 4:
+            keys.append((rng.choice(["IM", "I", "ImageMask", "Interpolate"]), bad))
+        elif k == 5:
+            keys.append((rng.choice(["D", "Decode"]), rng.choice([bad, [0, 1], [F.of(0.5), 1], [Nm(b"a")], 1])))
+        elif k == 6:
+            keys.append((rng.choice(["DP", "DecodeParms"]), rng.choice([bad, Dict([]), Dict([(b"K", 1)])])))
+        elif k == 7:
+            keys.append(("Intent", rng.choice([bad, Nm(b"Perceptual"), Nm(b"Bogus")])))
+        elif k == 8:
+            keys[2] = ("BPC", bad)
+        rng.shuffle(keys)
+        data = bytes(rng.choice(b"abc\x00\xff 012") for _ in range(rng.choice([0, 1, 4])))
+        stream = spell_image(rng, keys, data, rng.choice([b"", b"q\n"]), rng.choice([b"", b"Q\n", b"1 2 m\n"]))
+        if k == 9:
+            stream = stream[:rng.randrange(len(stream))]
+        elif k == 10:
+            stream = stream.replace(b"\nEI", rng.choice([b" EI", b"\nE I", b"EI", b"\n\nEI", b"\nEIx"]), 1)
+        elif k == 11:
+            stream = stream.replace(b" ID", rng.choice([b" IDx", b"", b" 5 ID", b" /K ID", b" ID ID"]), 1)
+        if has_ref(stream):
+            continue
+        yield Case("ops_parse_bytes", [stream], tags=["inline", "inline-malformed", "bytes"], kind="malformed")
+
+
 # ------------------------------------------------------------------------------------------------
 
 def generate(rng, tier):
     yield from with_twins(generate_base(rng, tier))
     yield from malformed_cases(rng, 600 if tier == "quick" else 8000)
+    yield from filtered_inline_cases(rng, 150 if tier == "quick" else 2500)
+    yield from malformed_inline_cases(rng, 400 if tier == "quick" else 6000)
 
 
 def generate_base(rng, tier):
@@ -548,13 +631,39 @@ def same(a, b):
         if a is not None and a[0] == "OK" and any(x == b"InlineImage" for x in a[1]):
             # the harness reports an inline image's dictionary sorted by key, filters as an array of full names
             try:
-                return T.ops_equal(canon_images(T.dec_ops(a[1])), canon_images(T.dec_ops(b[1])))
+                return T.ops_equal(canon_images(T.dec_ops(a[1])), canon_images(T.dec_ops(b[1]), decode=True))
             except Exception:
                 return False
     return same_result(a, b)
 
 
-def canon_images(ops):
+def apply_filters(names, data):
+    """the data of a filtered inline image as Stream::data returns it (spec-side decoders); b"?" when it cannot be decoded"""
+    from oracle import codecs as C
+    try:
+        for n in names:
+            if n == "ASCIIHexDecode":
+                data = C.hex_decode(data)
+            elif n == "ASCII85Decode":
+                data = C.a85_decode(data)
+            elif n == "RunLengthDecode":
+                data = C.rle_decode(data)
+            elif n == "FlateDecode":
+                data = C.zlib_decode(data)
+            elif n == "LZWDecode":
+                data = C.lzw_decode(data)
+            else:
+                return b"?"
+            if data is None:
+                return b"?"
+        return bytes(data)
+    except Exception:
+        return b"?"
+
+
+def canon_images(ops, decode=False):
+    """inline images: dictionary sorted by key, /Filter as a list of full names; decode=True: the model keeps the
+    raw data, the implementation reports what Stream::data returns"""
     out = []
     for o in ops:
         if o[0] == "InlineImage":
@@ -563,7 +672,9 @@ def canon_images(ops):
             for k, v in d.items:
                 if k == b"Filter":
                     v = v if isinstance(v, list) else [v]
-                    v = [Nm(T.INLINE_FILTERS.get(x.s.decode("latin1"), x.s.decode("latin1"))) for x in v]
+                    v = [Nm(T.INLINE_FILTERS.get(x.s.decode("latin1"), x.s.decode("latin1")).encode()) if isinstance(x, Nm) else x for x in v]
+                    if decode:
+                        data = apply_filters([x.s.decode("latin1") for x in v if isinstance(x, Nm)], data)
                 items.append((k, v))
             o = ("InlineImage", (Dict(sorted(items)), data))
         out.append(o)
